@@ -128,6 +128,7 @@ type RunCtx struct {
 	NShards  int
 	Deadline time.Time
 	Only     int64 // >=0: run only this index
+	Upto     int64 // >=0: run this shard's cases up to and including this index, then stop
 	Resume   int64 // skip indices <= Resume
 	Part     string
 	Findings *FindingsFile
@@ -147,7 +148,7 @@ type RunCtx struct {
 }
 
 func NewRunCtx(prop, tier string, shard, nshards int, deadline time.Time) *RunCtx {
-	rc := &RunCtx{Prop: prop, Tier: tier, Shard: shard, NShards: nshards, Deadline: deadline, Only: -1, Resume: -1}
+	rc := &RunCtx{Prop: prop, Tier: tier, Shard: shard, NShards: nshards, Deadline: deadline, Only: -1, Resume: -1, Upto: -1}
 	rc.idx = -1
 	rc.res.Outcomes = map[string]int64{}
 	rc.res.Counters = map[string]int64{}
@@ -202,6 +203,9 @@ func (rc *RunCtx) Take() bool {
 	if rc.NShards > 1 && int(rc.idx%int64(rc.NShards)) != rc.Shard {
 		return false
 	}
+	if rc.Upto >= 0 && rc.idx > rc.Upto {
+		return false
+	}
 	if rc.idx <= rc.Resume {
 		return false
 	}
@@ -241,7 +245,9 @@ func (rc *RunCtx) SetSkip(idxs []int64) {
 
 // Skip advances the counter by n without running anything (n cases known not to be
 // this worker's, e.g. a whole sub-space filtered by the enumerator).
-func (rc *RunCtx) Done() bool { return rc.Only >= 0 && rc.idx >= rc.Only }
+func (rc *RunCtx) Done() bool {
+	return rc.Only >= 0 && rc.idx >= rc.Only || rc.Upto >= 0 && rc.idx >= rc.Upto
+}
 
 // Eval records one executed case with its outcome class; key!="" marks it non-trivial
 // and distinct by key.
@@ -309,7 +315,7 @@ func (rc *RunCtx) Deviate(d Deviation) {
 	rc.res.DevCount++
 	key := d.Sig
 	rc.res.DevBySig[key]++
-	if rc.devPerSig[key] < maxDevPerSig && len(rc.res.Deviations) < maxDevTotal {
+	if rc.devPerSig[key] < maxDevPerSig && len(rc.res.Deviations) < maxDevTotal || rc.Upto >= 0 && rc.idx == rc.Upto {
 		rc.devPerSig[key]++
 		if len(d.Input) > 4000 {
 			d.Input = d.Input[:4000] + "…"
